@@ -163,16 +163,19 @@ structure XState where
   permits : Nat := 0
 deriving BEq, Repr
 
+/-- the exploration does not need the event log (the outcome is read off `writes`, the consumer and the channel) -/
+def strip (s : State) : State := { s with events := [] }
+
 def insertNew (x : XState) (xs : List XState) : List XState := if xs.contains x then xs else x :: xs
 
 /-- the uncontrolled steps possible in `x`: a receive, a permitted return of `Write` (an error return is the same
     step for the protocol) -/
 def tau (cfg : Config) (x : XState) : List XState :=
   (match x.s.cons, x.s.chan with
-   | .idle, _ :: _ => [{ x with s := step cfg x.s .recv }]
+   | .idle, _ :: _ => [{ x with s := strip (step cfg x.s .recv) }]
    | _, _ => []) ++
   (match x.s.cons with
-   | .writing _ => if x.permits > 0 then [{ s := step cfg x.s (.finish .ok), permits := x.permits - 1 }] else []
+   | .writing _ => if x.permits > 0 then [{ s := strip (step cfg x.s (.finish .ok)), permits := x.permits - 1 }] else []
    | _ => [])
 
 /-- everything reachable by uncontrolled steps (each strictly consumes a pending item or a permit: `fuel` bounds it) -/
@@ -190,7 +193,7 @@ def close (cfg : Config) (xs : List XState) : List XState := closure cfg (fuelFo
 
 /-- apply one controlled action in every state, then close under the uncontrolled ones -/
 def ctl (cfg : Config) (a : Act) (xs : List XState) : List XState :=
-  close cfg (xs.map fun x => { x with s := step cfg x.s a })
+  close cfg (xs.map fun x => { x with s := strip (step cfg x.s a) })
 
 /-- all interleavings of two action sequences -/
 def interleave : List Act → List Act → List (List Act)
